@@ -195,6 +195,18 @@ def write_sites():
     return sorted(sites)
 
 
+def _alias_root(fn, name):
+    """`name` is a local assigned exactly once, from an attribute path: the root of that path."""
+    if fn is None:
+        return None
+    vals = [n.value for n in _own_nodes(fn) if isinstance(n, ast.Assign) and len(n.targets) == 1
+            and isinstance(n.targets[0], ast.Name) and n.targets[0].id == name]
+    if len(vals) == 1 and isinstance(vals[0], ast.Attribute):
+        r = _root(vals[0])
+        return r if r not in ("<expr>", name) else None
+    return None
+
+
 def _param_is_fresh_at_every_call(site):
     """A write through a PARAMETER of a private helper is a write to an object its callers just created when every call
     of that helper in the package passes a fresh local there (helper extracted from a function that built the object)."""
@@ -211,7 +223,7 @@ def _param_is_fresh_at_every_call(site):
     idx = params.index(root) - (1 if params and params[0] in ("self", "cls") else 0)
     calls = 0
     for _r, _q, caller in _functions():
-        fresh_l = _fresh_locals(caller)
+        fresh_l = _fresh_locals(caller) | {n.name for n in _own_nodes(caller) if isinstance(n, (ast.FunctionDef, ast.AsyncFunctionDef))}
         for n in _own_nodes(caller):
             if isinstance(n, ast.Call) and ((isinstance(n.func, ast.Attribute) and n.func.attr == name) or (
                     isinstance(n.func, ast.Name) and n.func.id == name)):
@@ -244,6 +256,15 @@ def scan_ownership():
             owners = by_shape.get(shape(tuple(site)), set())
             if len(owners) == 1 and shape(tuple(site))[1]:
                 table[tuple(site)] = next(iter(owners))
+    # a write through a local that merely abbreviates an attribute path (`g = self._specs.grouper; g(...).add(...)`) is
+    # the write through that path
+    fns = {(r2, q2): fn for r2, q2, fn in _functions()}
+    for site in cur:
+        if tuple(site) not in table:
+            rel, q, kind, root, attr = site
+            ar = _alias_root(fns.get((rel, q)), root)
+            if ar and (rel, q, kind, ar, attr) in table:
+                table[tuple(site)] = table[(rel, q, kind, ar, attr)]
     unknown = [s for s in cur if tuple(s) not in table and not _param_is_fresh_at_every_call(s)]
     obs.append(_ob("C16|O3/every-heap-write-site-is-classified-in-the-ownership-table", not unknown, str(unknown[:6])))
     glob = sorted({table[tuple(s)] for s in cur if tuple(s) in table and table[tuple(s)].startswith("process-global")})
